@@ -88,6 +88,15 @@ def routes(o):
         rs.append(('Ranges.push', 'Ranges().push(%r, %s)' % (ref, lit(x)), push))
         f = '=%s' % lit(x)
         rs.append(('cell', 'Cell(%r, %r)' % (ref, f), lambda f=f: eval_range(tuple(dst), f)))
+        if x['k'] != 'a':
+            # the same single value as the *result of an operator* (an Array of one element)
+            comp = {'n': '=(%s+0)', 't': '=(%s&"")', 'b': '=(%s=TRUE)', 'e': '=(%s+0)'}.get(x['k'])
+            if comp:
+                f2 = comp % lit(x)
+                if x['k'] == 'e' and x['e'] == 'DIV0':
+                    f2 = '=(1/0)'
+                rs.append(('cell-computed', 'Cell(%r, %r)' % (ref, f2),
+                           lambda f2=f2: eval_range(tuple(dst), f2)))
     return rs
 
 
